@@ -285,6 +285,10 @@ def rule_init_pipeline(ctx):
                     src_ok = True
         if "self._properties" in norm(loop.iter):
             src_ok = True
+        if not src_ok:
+            # any iterable built from the table (a ChainMap / chain / union that includes self._properties) covers it
+            from ..forward import flow_of as _flow_of
+            src_ok = "_properties" in _flow_of(fi).prov(loop.iter, ln).selfattrs
         run.check(src_ok, "C02.init-pipeline", key(rel, fi.qualname, "loop-covers-all-spec-properties"),
                   "the cleaning loop does not range over self._properties", file=rel, line=loop.lineno,
                   function=fi.qualname, expected="iteration over (a chain including) self._properties", found=short(loop.iter))
